@@ -889,8 +889,9 @@ def dict_helper_facts():
         except Exception as e:
             bad("cannot compile BaseSliver.%s on its own: %r" % (nm, e))
         fns[nm] = ns[nm]
-    keys = ("a", "b", "c")
-    subsets = [tuple(k for k, on in zip(keys, m) if on) for m in itertools.product((False, True), repeat=3)]
+    # keys related by a normalisation (letter case, a blank, a leading zero) are different keys
+    keys = ("a", "b", "A", "a ", "01", "1")
+    subsets = [tuple(k for k, on in zip(keys, m) if on) for m in itertools.product((False, True), repeat=len(keys))]
     why = None
     for ka in subsets:
         for kb in subsets:
